@@ -64,3 +64,84 @@ def kept_mutable_defaults(repo: Repo):
                             and isinstance(v, ast.Name) and v.id in mutable and v.id not in rebound:
                         out.append(SharedDefault(ci.module.name, ci.name, m.name, v.id, t.attr, x.lineno))
     return out, n
+
+
+def diagnostic_slots(repo: Repo, ci) -> set:
+    """Attributes of a class that are bookkeeping nobody reads: every occurrence of `.name` in the whole package is in the class's
+    __init__ or in ONE other method of it, and there never inside a returned / yielded expression or a condition.  Counters and
+    statistics a method keeps for the user (`self.syscall_errors.update([name])`) are like that; what the method leaves in them
+    cannot reach a result."""
+    occ = {}
+    for mod in repo.modules.values():
+        for node in ast.walk(mod.tree):
+            if isinstance(node, ast.Attribute):
+                occ.setdefault(node.attr, []).append((mod, node))
+    own = {}
+    for mname, m in ci.methods.items():
+        for node in ast.walk(m):
+            if isinstance(node, ast.Attribute) and isinstance(node.value, ast.Name) and m.args.args and node.value.id == m.args.args[0].arg:
+                own.setdefault(node.attr, {}).setdefault(mname, []).append(node)
+    out = set()
+    deps = {}
+    for attr, per_method in own.items():
+        users = set(per_method) - {"__init__"}
+        if "__init__" not in per_method or len(users) != 1:
+            continue
+        n_own = sum(len(v) for v in per_method.values())
+        if n_own != len(occ.get(attr, [])):
+            continue            # read or written somewhere else in the package as well
+        m = ci.methods[next(iter(users))]
+        selfn = m.args.args[0].arg
+
+        def is_slot(n):
+            return isinstance(n, ast.Attribute) and n.attr == attr and isinstance(n.value, ast.Name) and n.value.id == selfn
+
+        def slot_call(n):
+            return isinstance(n, ast.Call) and isinstance(n.func, ast.Attribute) and is_slot(n.func.value)
+        total = sum(1 for n in ast.walk(m) if is_slot(n))
+        ok_n, tainted = 0, set()
+        needs = set()
+        for st in ast.walk(m):
+            if isinstance(st, ast.Expr) and slot_call(st.value):
+                ok_n += sum(1 for n in ast.walk(st) if is_slot(n))
+            elif isinstance(st, ast.Expr) and isinstance(st.value, ast.Call) and isinstance(st.value.func, ast.Attribute) \
+                    and isinstance(st.value.func.value, ast.Attribute) and isinstance(st.value.func.value.value, ast.Name) \
+                    and st.value.func.value.value.id == selfn and any(is_slot(n) for n in ast.walk(st)):
+                # used inside a bookkeeping call on ANOTHER slot of the object: fine if that one is bookkeeping too
+                ok_n += sum(1 for n in ast.walk(st) if is_slot(n))
+                needs.add(st.value.func.value.attr)
+            elif isinstance(st, ast.AugAssign) and is_slot(st.target):
+                ok_n += sum(1 for n in ast.walk(st) if is_slot(n))
+            elif isinstance(st, ast.Assign) and len(st.targets) == 1 and is_slot(st.targets[0]):
+                ok_n += sum(1 for n in ast.walk(st) if is_slot(n))
+            elif isinstance(st, ast.Assign) and len(st.targets) == 1 and isinstance(st.targets[0], ast.Name) and slot_call(st.value):
+                ok_n += sum(1 for n in ast.walk(st) if is_slot(n))
+                tainted.add(st.targets[0].id)
+        if ok_n != total:
+            continue
+        # what was read out of the slot into a local goes nowhere but into bookkeeping calls on slots of the object / logging
+        leak = False
+        for st in ast.walk(m):
+            if isinstance(st, ast.Expr) and isinstance(st.value, ast.Call) and isinstance(st.value.func, ast.Attribute):
+                recv = st.value.func.value
+                if (isinstance(recv, ast.Attribute) and isinstance(recv.value, ast.Name) and recv.value.id == selfn) or \
+                        (isinstance(recv, ast.Name) and recv.id in ("logger", "logging", "log", "warnings")):
+                    continue
+            if isinstance(st, ast.Assign) and len(st.targets) == 1 and isinstance(st.targets[0], ast.Name) and st.targets[0].id in tainted:
+                continue
+            if isinstance(st, (ast.stmt,)) and not isinstance(st, (ast.FunctionDef, ast.If, ast.For, ast.While, ast.With, ast.Try)):
+                if any(isinstance(x, ast.Name) and x.id in tainted and isinstance(x.ctx, ast.Load) for x in ast.walk(st)):
+                    leak = True
+            if isinstance(st, (ast.If, ast.While)) and any(isinstance(x, ast.Name) and x.id in tainted for x in ast.walk(st.test)):
+                leak = True
+        if not leak:
+            out.add(attr)
+            deps[attr] = needs
+    changed = True
+    while changed:
+        changed = False
+        for a in list(out):
+            if deps.get(a, set()) - out:
+                out.discard(a)
+                changed = True
+    return out
